@@ -246,6 +246,16 @@ func vhBuild(ctx int, s []byte) vhCtx {
 		c.symStart = 8 * len(p)
 		c.stream = append(append(p, s...), make([]byte, 20)...)
 		return c
+	case ctx == 9:
+		// as 7, followed by bytes that complete an empty stored block and a final empty
+		// fixed block IF the last window bytes are zero: anything that turns the bytes
+		// after a short stored block into zeros ends in a false io.EOF
+		w.bits(0, 1)
+		w.bits(0, 2)
+		p := w.bytes()
+		c.symStart = 8 * len(p)
+		c.stream = append(append(p, s...), 0x00, 0xff, 0xff, 0x03, 0x00)
+		return c
 	case ctx == 4:
 		// final stored block: header concrete, LEN/NLEN/data symbolic
 		w.bits(1, 1)
@@ -398,6 +408,10 @@ func VerifRdOracle() {
 		verifrt.Cover("complete")
 		verifrt.Assert(fk == 1, "C02:eof")
 		verifrt.Assert(vhEqual(fout, strict.out), "C02:bytes")
+	}
+	if verifrt.Param("ONLY") == 2 {
+		// run for C02 only: the malformed-input assertions belong to the C03 runs
+		return
 	}
 	verifrt.Assert(stalls == 0, "C03:progress")
 	verifrt.Assert(fk != 0 && fk != 4, "C03:error-kind-domain")
